@@ -1,5 +1,5 @@
 //! Group "tutil": tensor utilities beyond the listed properties (specification growth, check X01):
-//! one_hot, argmax tie rule, pad3d, upsample3d, resize, dropout mask.
+//! one_hot, argmax tie rule, pad3d, upsample3d, resize, get_triple / as_triple, quadruple_to_vec_triple, hadamard3d, dropout mask.
 
 use crate::util::*;
 use neurons::tensor::{self, Shape, Tensor};
@@ -13,6 +13,7 @@ pub fn replay_tutil(case: &Value, rep: &mut Report) {
             o.remove("result");
             o.remove("x");
             o.remove("mask");
+            o.remove("y");
         }
         c.to_string()
     });
@@ -72,6 +73,69 @@ pub fn replay_tutil(case: &Value, rep: &mut Report) {
                     }
                 }
                 Err(e) => rep.mismatch("X01", "resize_panicked", &id, json!({"panic": e}), case),
+            }
+        }
+        "get_triple" => {
+            let (c, h, w) = (usize_of(case, "c"), usize_of(case, "h"), usize_of(case, "w"));
+            let x = if str_of(case, "from") == "vector" { Tensor::single(vec1(&case["x"])) } else { Tensor::triple(vec3(&case["x"])) };
+            match guarded(|| x.get_triple(&Shape::Triple(c, h, w))) {
+                Ok(y) => {
+                    if let Some(d) = diff_exact(&Tensor::triple(y), &case["result"]) {
+                        rep.mismatch("X01", "get_triple_value", &id, json!({"diff": d}), case);
+                    }
+                }
+                Err(e) => rep.mismatch("X01", "get_triple_panicked", &id, json!({"panic": e}), case),
+            }
+            if str_of(case, "from") == "tensor" {
+                // as_triple is the identity view
+                match guarded(|| x.as_triple().clone()) {
+                    Ok(y) => {
+                        if let Some(d) = diff_exact(&Tensor::triple(y), &case["result"]) {
+                            rep.mismatch("X01", "as_triple_value", &id, json!({"diff": d}), case);
+                        }
+                    }
+                    Err(e) => rep.mismatch("X01", "as_triple_panicked", &id, json!({"panic": e}), case),
+                }
+            }
+        }
+        "split_quad" => {
+            let x = Tensor::quadruple(vec4(&case["x"]));
+            match guarded(|| x.quadruple_to_vec_triple()) {
+                Ok(parts) => {
+                    let want = case["result"].as_array().unwrap();
+                    if parts.len() != want.len() {
+                        rep.mismatch("X01", "split_quad_count", &id, json!({"observed": parts.len()}), case);
+                    } else {
+                        for (k, (p, w)) in parts.iter().zip(want).enumerate() {
+                            let dims_ok = shape_dims(&p.shape) == data_dims(&p.data);
+                            if let Some(d) = diff_exact(p, w) {
+                                rep.mismatch("X01", "split_quad_value", &id, json!({"part": k, "diff": d}), case);
+                                break;
+                            } else if !dims_ok {
+                                rep.mismatch("X01", "split_quad_shape", &id, json!({"part": k, "shape": shape_dims(&p.shape)}), case);
+                                break;
+                            }
+                        }
+                    }
+                }
+                Err(e) => rep.mismatch("X01", "split_quad_panicked", &id, json!({"panic": e}), case),
+            }
+        }
+        "hadamard3d" => {
+            let (a, b) = (vec3(&case["x"]), vec3(&case["y"]));
+            let scalar = 1.0 / (1u64 << case["k"].as_u64().unwrap()) as f32;
+            match guarded(|| tensor::hadamard3d(&a, &b, scalar)) {
+                Ok(y) => {
+                    let mut want = Vec::new();
+                    flat_json(&case["result"], &mut want);
+                    let y = Tensor::triple(y);
+                    if data_dims(&y.data) != vec![usize_of(case, "c"), usize_of(case, "h"), usize_of(case, "w")] {
+                        rep.mismatch("X01", "hadamard3d_shape", &id, json!({"observed": data_dims(&y.data)}), case);
+                    } else if let Some(d) = diff_flat_exact(&flat(&y), &want) {
+                        rep.mismatch("X01", "hadamard3d_value", &id, json!({"diff": d}), case);
+                    }
+                }
+                Err(e) => rep.mismatch("X01", "hadamard3d_panicked", &id, json!({"panic": e}), case),
             }
         }
         "dropout" => {
